@@ -628,8 +628,16 @@ func genConsCase(r *Rand, tier string, w *bufio.Writer) {
 				nws = append(nws[:k], nws[k+1:]...)
 			}
 			for len(nids) < 9 && r.Chance(1, 3) {
+				nw := nws[r.Intn(len(nws))]
+				var nt uint64
+				for _, x := range nws {
+					nt += x
+				}
+				if nt+nw > 1<<31-1 {
+					break // the total weight of a validator set is limited to 2^31-1
+				}
 				nids = append(nids, uint64(30+3*e+len(nids)))
-				nws = append(nws, nws[r.Intn(len(nws))])
+				nws = append(nws, nw)
 			}
 		}
 		epochSets[e+1] = vset{nids, nws}
